@@ -10,6 +10,11 @@ s=open('/verif/notes/seed_prompt.txt').read()
 s=s.replace('__WT__','/tmp/wt-$p').replace('__OUT__','/tmp/seed-$p').replace('__PROPERTY__',prop)
 base=20000+random.randrange(0,20000)
 s+="\nNote: several agents run concurrently on this machine and some existing tests bind fixed UDP ports (5000-5011, 9000-9500 range, 10001-10010); if a test of the existing suite fails with AddrInUse or a port clash, re-run it before concluding anything. For any new test that binds sockets choose ports in the range %d-%d.\n" % (base, base+20)
+import os
+st=os.environ.get('STEER')
+if st:
+    a,b=json.load(open(st))['$p']
+    s+="\nThis exercise has been run several times already for this property. The earlier changes were made at these sites - do NOT use them again: "+a+". Sites and clauses of the property that have not been used yet include: "+b+" (you may also pick something else entirely, as long as it is not one of the used sites).\n"
 open('/tmp/seed-$p/prompt.txt','w').write(s)
 PY
 done
